@@ -4,6 +4,8 @@ From Coq.Strings Require Import Byte.
 From Gopki.Model Require Import Bytes Base64 Pem Der Asn1 Text Algs Glue Pkcs8 Ext Rdn Time X509 Generate HashView Dir Plan Run Ops Cli Merge Validate Current.
 From Gopki.Spec Require Import RegenSpec DirInv MergeSpec ValidateSpec X509Spec ExtSpec AdmissionSpec PolicySpec.
 From Gopki.Proofs Require Import RunProofs ExtProofs PlanProofs WfProofs X509Proofs DerProofs Asn1Proofs TimeRangeProofs RdnProofs GenerateProofs ValidateProofs TimeProofs AlgsProofs Base64Proofs PolicyProofs MergeProofs CliProofs OpsProofs FaultProofs HistoryProofs HashViewProofs Pkcs8Proofs RecoverProofs PemTornProofs AdmissionProofs PemProofs GlueProofs.
+From Gopki.Model Require Import CaseLib.
+From Gopki.Proofs Require Import TableProofs.
 Import ListNotations.
 
 (* each of the 14 key algorithm names denotes its documented curve / modulus length *)
@@ -40,3 +42,22 @@ Theorem C05_spki_algorithm_total :
        RSA4096; RSA8192] = true.
 Proof. exact spki_alg_total. Qed.
 Print Assumptions C05_spki_algorithm_total.
+
+(* the SubjectPublicKeyInfo algorithm demanded for each of the 14 names and for the omitted name: rsaEncryption + NULL, or
+   id-ecPublicKey + the documented curve's OID (finite table, closed by evaluation) *)
+Theorem C05_spki_algorithm_table :
+  forallb (fun s => algid_opt_eqb (spki_alg_of_name (list_byte_of_string s)) (spec_spki_alg s)
+                    && match spec_spki_alg s with Some _ => true | None => false end)
+          (""%string :: key_names) = true.
+Proof. exact spki_algorithm_table. Qed.
+Print Assumptions C05_spki_algorithm_table.
+
+Theorem C05_signature_scheme_table :
+  forallb (fun sg => forallb (fun k =>
+      Bool.eqb (match sig_oid (list_byte_of_string sg) with
+                | Some (_, rsa) => Bool.eqb rsa (key_is_rsa (list_byte_of_string k))
+                | None => false end)
+               (Bool.eqb (String.prefix "RSA" sg) (match spec_keyalg k with Some ka => is_rsa ka | None => false end)))
+      key_names) sig_names = true.
+Proof. exact signature_scheme_table. Qed.
+Print Assumptions C05_signature_scheme_table.
